@@ -1,3 +1,5 @@
+import OdxVerif.Model.Comparam
+import OdxVerif.Model.Inherit
 /-! # Model of the PDX/ODX write–read path of odxtools (property C11, family `Pdx`)
 
   Core Lean only (linked into `drv_pdx`).  Three independent parts:
@@ -8,6 +10,10 @@
     the templates write a set `W` of slots, `from_et` reads a set `R` of slots.
   * **D — load order.**  `Database._process_xml_tree` / `refresh` / `_build_odxlinks`
     (`odxtools/database.py:77-173`).
+  * **E — derived state.**  What `refresh()` derives for a layer from the ODXLINK map: the PARENT-REF chains
+    followed through `parent_ref.layer` and the communication parameters / inherited objects computed over them
+    (`hierarchyelement.py : _compute_available_commmunication_parameters`, `_compute_available_objects`, modelled
+    in `Model/Comparam.lean` and `Model/Inherit.lean`).
 -/
 namespace OdxVerif.Pdx
 
@@ -213,6 +219,75 @@ def distinctFragments (fs : List File) : Prop := (fs.map (·.frag)).Nodup
 
 /-- local ids unique within each file (not needed for `load_order`; stated for reference) -/
 def localIdsUnique (fs : List File) : Prop := ∀ f ∈ fs, (f.ids.map (·.1)).Nodup
+
+/-! ## Part E — derived state of a layer (`HierarchyElement._finalize_init`)
+
+  `Database.refresh()` first resolves every ODXLINK reference against the map of `_build_odxlinks` (database.py:133-141;
+  `ParentRef._resolve_odxlinks`: `self._layer = odxlinks.resolve(self.layer_ref)`) and then lets every layer compute the
+  objects and communication parameters that apply to it (`_finalize_init`, database.py:149-154).  Both computations
+  recurse through `parent_ref.layer` down to the layers without parents and read only *described* attributes of the
+  layers they meet (local objects, local COMPARAM-REFs, NOT-INHERITED lists) — never a result stored by another
+  layer's `_finalize_init`.  The model therefore unfolds the PARENT-REF chains through the ODXLINK map into the trees
+  on which `Comparam.available` and `Inherit.computeAvailable` are defined. -/
+
+open OdxVerif.Gen (LayerKind)
+
+/-- what a layer element describes, as far as the two inheritance schemes read it (a property of the element, not
+    of the order in which documents were added) -/
+structure RawLayer where
+  kind : LayerKind
+  cps : List Comparam.Inst                          -- `hierarchy_element_raw.comparam_refs`
+  locals : List Inherit.Obj                         -- `get_local_objects(layer)` of the object category at hand
+  parents : List ((String × String) × List Nat)     -- PARENT-REFs in document order: (DOCREF fragment, ID-REF) and the
+                                                    --   NOT-INHERITED short names of the category at hand
+deriving Inhabited
+
+/-- all parents (in document order) or nothing -/
+def allSome {α β : Type} (f : α → Option β) : List α → Option (List β)
+  | [] => some []
+  | x :: xs => match f x, allSome f xs with
+    | some y, some ys => some (y :: ys)
+    | _, _ => none
+
+/-- the tree `_compute_available_commmunication_parameters` walks from the layer the key denotes; `none`: an
+    ODXLINK reference on the way does not resolve (`odxlinks.resolve` raises, `refresh()` fails) or the chain is
+    longer than `fuel` (cyclic PARENT-REFs: Python ends in `RecursionError`) -/
+def unfoldCp (look : String × String → Option Nat) (raw : Nat → Option RawLayer) :
+    Nat → String × String → Option Comparam.Layer
+  | 0, _ => none
+  | fuel + 1, k =>
+    match (look k).bind raw with
+    | none => none
+    | some r =>
+      match allSome (fun p => unfoldCp look raw fuel p.1) r.parents with
+      | none => none
+      | some ps => some (.mk r.kind r.cps ps)
+
+/-- the tree `_compute_available_objects` walks (same chains, local objects and NOT-INHERITED lists of one category) -/
+def unfoldObj (look : String × String → Option Nat) (raw : Nat → Option RawLayer) :
+    Nat → String × String → Option Inherit.Layer
+  | 0, _ => none
+  | fuel + 1, k =>
+    match look k with
+    | none => none
+    | some o =>
+      match raw o with
+      | none => none
+      | some r =>
+        match allSome (fun p => (unfoldObj look raw fuel p.1).map fun l => (l, p.2)) r.parents with
+        | none => none
+        | some ps => some (.mk o r.kind r.locals ps)
+
+/-- `layer.comparam_refs` after `refresh()` of the database `db`, for the layer with ODXLINK id `k` -/
+def effectiveComparams (db : Db) (raw : Nat → Option RawLayer) (fuel : Nat) (k : String × String) :
+    Option (List Comparam.Inst) :=
+  (unfoldCp (linkLookup db) raw fuel k).map Comparam.available
+
+/-- the objects of one category the layer with ODXLINK id `k` ends up with after `refresh()` (`.error`: `odxraise`
+    on an inheritance conflict) -/
+def effectiveObjects (db : Db) (raw : Nat → Option RawLayer) (fuel : Nat) (k : String × String) :
+    Option (Except Inherit.Err (List Inherit.Obj)) :=
+  (unfoldObj (linkLookup db) raw fuel k).map Inherit.computeAvailable
 
 /-! ### file-type dispatch of the three entry points
 
